@@ -70,6 +70,9 @@ def programs(tier):
     add('implicit-attributes', doc(el('img', static=[['alt', 'Logo'], ['title', ['By ', I('site')]], ['src', 'a.png'],
                                                      ['longdesc', ['x', I('site + 1')]]])),
         [['site', 'int', 0]], options={'implicit_i18n_attributes': ['alt', 'title', 'longdesc']})
+    add('implicit-attributes-with-entities', doc(el('img', static=[['alt', 'Tom &amp; Jerry'], ['title', 'a &lt; b &#169;'], ['src', 'a.png']]),
+                                                 el('img', static=[['alt', 'Tom &amp; Jerry']], i18n_attributes='alt')),
+        [], options={'implicit_i18n_attributes': ['alt', 'title']})
     add('implicit-and-explicit', doc(el('img', static=[['alt', ['Logo of ', I('site')]], ['title', 'T']],
                                         i18n_attributes='alt; title')),
         [['site', 'int', 0]], options={'implicit_i18n_attributes': ['alt', 'title']})
